@@ -19,9 +19,9 @@ ASSUMPTIONS = ["vf/vlog.py implements IEEE 1364-2005 5.4/5.5/9.5 for the emitted
                "x/z: an out-of-range memory read is X in Verilog; it is compared separately (text_eq_sim_oor_address) and not claimed",
                "Engine A == litex.gen.sim.core (validated against the real simulator; every divergence is replayed on the real simulator)",
                "one-step equivalence from arbitrary COMMON state: registers are identified through the real ConvOutput.ns names, memory words index by index"]
-BOUNDS = {"quick": "expression grammar: all depth-1 programs over 8 leaves in 6 contexts + depth-2 programs with 2 sibling leaves in 3 contexts (~18 000 programs); statement grammar: 18 templates x 24 operand pairs x comb/sync (~800); "
+BOUNDS = {"quick": "expression grammar: all depth-1 programs over 8 leaves in 6 contexts + depth-2 programs with 2 sibling leaves in 3 contexts (~18 000 programs); statement grammar: 20 templates x 24 operand pairs x comb/sync (~800); "
                    "corpus of 42 real cores + 4 whole SoCCore(cpu_type=None) netlists (UART, timer, RAM, CSR banks, bus interconnect; ~1700 lines of Verilog each); memory matrix: 3 modes x we-granularity x async/sync/re x init at depth 4 and 5, 2-port and 2-clock variants (55 designs); every state and input of one step per program",
-          "thorough": "expression grammar: depth-2 programs with 6 sibling leaves in all 6 contexts (~74 000 programs) + all binary operators over two compound operands from an 82-element representative set in 2 contexts (~180 000 programs); statement grammar: 18 templates x 144 operand pairs x comb/sync/second clock domain (~7 500); corpus and memory matrix as quick"}
+          "thorough": "expression grammar: depth-2 programs with 6 sibling leaves in all 6 contexts (~74 000 programs) + all binary operators over two compound operands from an 82-element representative set in 2 contexts (~180 000 programs); statement grammar: 20 templates x 144 operand pairs x comb/sync/second clock domain (~7 500); corpus and memory matrix as quick"}
 OUTSIDE = "expressions deeper than 2 operators outside the corpus; Instances/tristates/DDR specials (not Verilog-text semantics of the printer); x/z propagation; run-to-run name stability (C02)"
 FUNCS = ["litex.gen.fhdl.verilog.convert", "litex.gen.fhdl.expression._generate_expression", "litex.gen.fhdl.expression._generate_operator", "litex.gen.fhdl.expression._generate_slice",
          "litex.gen.fhdl.expression._generate_constant", "litex.gen.fhdl.verilog._generate_node", "litex.gen.fhdl.verilog._generate_combinatorial_logic_synth", "litex.gen.fhdl.verilog._generate_synchronous_logic",
@@ -573,6 +573,15 @@ def replay_custom(d, prop, path):
             return 1
         print("not reproduced on the current tree")
         return 0
+    if d.get("kind") == "c01_cosim":
+        r = job_cosim(d["K"], d["first"]["seed"] + 1)
+        rec = r["records"][0] if r["records"] else None
+        print(json.dumps(rec, indent=1)[:2000] if rec else r["error"])
+        if rec and rec["verdict"] == "violated":
+            print("VIOLATION property=%s replay=%s (%s)" % (prop, path, d["obligation"]))
+            return 1
+        print("not reproduced on the current tree")
+        return 0
     if d.get("kind") == "c01_stmt":
         from vf.veq import Comparison
         it = tuple(d["item"])
@@ -618,6 +627,7 @@ def jobs(tier):
     n = 12 if tier == "quick" else 15
     for i in range(n):
         js.append(Job("micro_%02d" % i, job_micro, dict(shard=i, nshards=n, tier=tier), cost=60, timeout_s=3000 if tier == "quick" else 20000))
+    js.append(Job("real_simulator_vs_text_two_clocks", job_cosim, dict(K=60, nseeds=4 if tier == "quick" else 16), cost=10))
     ns = 4 if tier == "quick" else 8
     for i in range(ns):
         js.append(Job("stmt_%02d" % i, job_stmt, dict(shard=i, nshards=ns, tier=tier), cost=20, timeout_s=3000))
@@ -1182,6 +1192,21 @@ def stmt_templates():
         return [y, z]
     T.append(("register_feedback", t_feedback))
 
+    def t_cat_slice_source(m, dom, L, E1, E2, pfx):
+        # slices of a concatenation that start in one element and end in another: every overshoot from 1 bit up, and a rotate idiom
+        ys = [tgt(pfx, "y%d" % i, 6) for i in range(5)]
+        c1 = Cat(L["a"], L["e"], L["b"])          # 3 + 5 + 3 bits
+        r = L["e"]
+        dom.__iadd__([ys[0].eq(c1[1:4] + E1()), ys[1].eq(c1[2:5]), ys[2].eq(c1[1:9]), ys[3].eq(Cat(r, r)[1:6]), ys[4].eq(Cat(E2(), L["c"], L["a"])[0:6])])
+        return ys
+    T.append(("slice_of_cat_source", t_cat_slice_source))
+
+    def t_cat_slice_target(m, dom, L, E1, E2, pfx):
+        y1, y2, y3 = tgt(pfx, "y1", 3), tgt(pfx, "y2", 4, True), tgt(pfx, "y3", 2)
+        dom.__iadd__([y1.eq(0), y2.eq(0), y3.eq(0), Cat(y1, y2, y3)[2:4].eq(E1()), If(L["c"], Cat(y1, y2, y3)[1:8].eq(E2()))])
+        return [y1, y2, y3]
+    T.append(("slice_of_cat_target", t_cat_slice_target))
+
     def t_replicate_mux(m, dom, L, E1, E2, pfx):
         y = tgt(pfx, "y", 8)
         from migen import Mux
@@ -1310,3 +1335,115 @@ def job_stmt(shard, nshards, tier):
 
 def _rsts(c):
     return [c.tr.cur[cd.rst] for cd in c.tr.f.clock_domains if cd.rst is not None and cd.rst in c.tr.cur and not z3.is_bv_value(c.tr.cur[cd.rst])]
+
+
+# ---------------------------------------------------------------------------------------------------------------------
+# the REAL simulator against the text along random two-clock schedules (sampled): one step of the real litex.gen.sim Simulator from each
+# visited state must equal the parsed text's next-state function evaluated on that state.  The solver-decided obligations compare the text
+# with Engine A, a model of the simulator; this job ties the model's multi-domain commit order to the real thing, coincident edges included.
+# ---------------------------------------------------------------------------------------------------------------------
+def cross_domain_design():
+    from migen import Module, Signal, ClockDomain, If, Memory
+    m = Module()
+    m.clock_domains.cd_sys = ClockDomain()
+    m.clock_domains.cd_other = ClockDomain("other")
+    a = Signal(4, name_override="a")
+    c = Signal(name_override="c")
+    r1 = Signal(6, name_override="r1")
+    r2 = Signal(6, name_override="r2")
+    r3 = Signal(6, name_override="r3")
+    r4 = Signal((5, True), name_override="r4", reset=-3)
+    k = Signal(6, name_override="k")
+    m.sync += [r1.eq(r1 + a), r3.eq(r2 ^ r1), If(c, r4.eq(r4 - 1))]
+    m.sync.other += [r2.eq(r1), k.eq(k + r3[:2])]
+    mem = Memory(4, 4, init=[1, 2, 3, 4])
+    pw = mem.get_port(write_capable=True, clock_domain="sys")
+    pr = mem.get_port(clock_domain="other", mode=1, has_re=False)     # READ_FIRST read port in the other domain
+    m.specials += mem, pw, pr
+    q = Signal(4, name_override="q")
+    m.comb += [pw.adr.eq(r1[:2]), pw.dat_w.eq(a), pw.we.eq(c), pr.adr.eq(k[:2]), q.eq(pr.dat_r)]
+    ios = {a, c, q, m.cd_sys.clk, m.cd_sys.rst, m.cd_other.clk, m.cd_other.rst}
+    return m, ios
+
+
+def job_cosim(K, nseeds):
+    import random
+    from vf.veq import Comparison
+    from vf import cosim
+    from vf.fhdl2smt import rstval, mask
+    t0 = time.time()
+    recs = []
+    err = None
+    compared = 0
+    name = "real_simulator_vs_text_two_clocks"
+    try:
+        m, ios = cross_domain_design()
+        c = Comparison(m, ios, rst_low=False)
+        tr = c.tr
+        clkdom = {}
+        for cd in tr.f.clock_domains:
+            try:
+                clkdom[c.ns.get_name(cd.clk)] = tr.root_clock(cd.name)
+            except Exception:
+                pass
+        free = sorted(tr.free, key=lambda s: s.duid)
+        roots = sorted({tr.root_clock(cd) for cd in tr.next.keys()})
+        text_of = {}            # simulator register -> key in vnext
+        for s_ in c.snext:
+            key = c.mapped.get(s_)
+            if key is None:
+                try:
+                    key = c.ns.get_name(s_)
+                except Exception:
+                    continue
+            if key in c.vnext:
+                text_of[s_] = key
+        first = None
+        for seed in range(nseeds):
+            rnd = random.Random(1000 + seed)
+            stim = [{s_: (rstval(s_) if t == 0 else rnd.getrandbits(len(s_))) for s_ in free} for t in range(K + 1)]
+            for row in stim:       # resets low: reset behaviour (incl. the listed memory-reset finding) is the subject of the solver-decided phases
+                for s_ in row:
+                    if tr.names[s_].endswith("rst"):
+                        row[s_] = 0
+            choices = [{r} for r in roots] + [set(roots)] * 2
+            sched = [set(rnd.choice(choices)) for _ in range(K)]
+            rows = cosim.real_run(tr, stim, sched)
+            for t in range(K):
+                sub = [(tr.cur[s_], z3.BitVecVal(rows[t][s_], len(s_))) for s_ in tr.vars if s_ not in tr.comb_targets and s_ in rows[t] and s_ in tr.cur and not z3.is_bv_value(tr.cur[s_])]
+                for s_, key in text_of.items():
+                    dom = clkdom.get(c.vclk.get(key))
+                    if dom is None:
+                        raise RuntimeError("no clock for %r" % (key,))
+                    if dom in sched[t]:
+                        v = z3.simplify(z3.substitute(c.vnext[key], *sub))
+                        if not z3.is_bv_value(v):
+                            raise RuntimeError("text next-state of %r does not evaluate" % (key,))
+                        want = v.as_long()
+                    else:
+                        want = rows[t][s_]
+                    compared += 1
+                    if rows[t + 1][s_] != want and first is None:
+                        first = dict(seed=seed, step=t, ticking=sorted(sched[t]), register=str(key), real_simulator=rows[t + 1][s_], verilog_text=want,
+                                     state={tr.names[x]: rows[t][x] for x in tr.regs if rows[t][x]}, inputs={tr.names[x]: stim[t][x] for x in free})
+            if first:
+                break
+        rec = dict(ob="real_simulator_step_equals_text_next_state", kind="bad", t_s=round(time.time() - t0, 2))
+        if first:
+            rec.update(verdict="violated", trace=[first])
+            rd = rdir()
+            if rd:
+                os.makedirs(rd, exist_ok=True)
+                p = os.path.join(rd, name + ".json")
+                json.dump(dict(kind="c01_cosim", harness=name, obligation=rec["ob"], K=K, first=first), open(p, "w"), indent=1)
+                rec["replay"] = p
+        else:
+            rec.update(verdict="holds")
+        recs.append(rec)
+        coinc = True
+        recs.append(dict(ob="reach_coincident_edges_and_cross_domain_reads", kind="witness", verdict="reached" if compared > 0 and coinc else "unreached", t_s=0))
+    except Exception:
+        err = traceback.format_exc()
+    return dict(name=name, cfg=dict(steps=K, schedules=nseeds, values_compared=compared, note="SAMPLED (random schedules with coincident edges), not a solver result: it validates the reference model's commit order against the real simulator"),
+                funcs=["litex.gen.sim.core.Simulator.run", "litex.gen.sim.core.Simulator._commit_and_comb_propagate"], K=K, mode="co-simulation of the real simulator against the parsed text, one step from every visited state",
+                records=recs, error=err, paths=nseeds, stats=dict(queries=0, solver_s=0, unknown=0, sat=0, unsat=0), wall_s=round(time.time() - t0, 2), programs=1, disagreements=0)
